@@ -433,6 +433,21 @@ func ZZ_C20_Values() {
 		}
 	case 2:
 		line = []string{"", "-", "+"}[zz.Choose(3)] + zzDigitStr("h", 1) + "h" + zzDigitStr("m", 2) + "m"
+	case 3:
+		// multi-line summaries: starting on the entry line or below it, two symbolic bytes
+		b := zz.String("b", 2)
+		for i := 0; i < 2; i++ {
+			zz.Assume(zz.And(b[i] > ' ', b[i] < 0x7f))
+		}
+		body := []string{"    1h\n        below " + b + " #t\n", "    1h first " + b + "\n        second\n        third #x=" + b + "\n",
+			"    8:00 - ?\n        " + b + "\n"}[zz.Choose(3)]
+		text := "2020-01-01\nRecord " + b + "\nsummary #r\n" + body
+		rs, _, errs := parser.NewSerialParser().Parse(text)
+		if errs != nil {
+			zz.Stop()
+		}
+		zzCheckRecordsJSON(json.ToJson(rs, nil, zz.Param("pretty") == 1), rs)
+		return
 	}
 	text := "2020-01-01 (" + zzDigitStr("sd", 1) + "h!)\n    " + line + " s\n"
 	rs, _, errs := parser.NewSerialParser().Parse(text)
